@@ -65,6 +65,10 @@ def read_cmds(size, widths, quick, rng=None, off=0):
         if size >= 2:
             # ... and over a block that was built by append, split and appended to again
             cmds.append("sget %d %d x%d.%d:%s %s" % (size, off, 1 + rng.below(size - 1), 1 + rng.below(4), rand_seg(rng, size), ws))
+        # ... and over a block whose old header (exactly its first segment) was stripped, which was looked at, and
+        # which got a new header prepended in the room the old one left
+        h = 1 + rng.below(6)
+        cmds.append("sget %d %d p%d.%d:%s %s" % (size, off, h, 1 + rng.below(h), rand_seg(rng, size), ws))
     cmds.append("oget %d %d %s" % (size, off, ws))
     return cmds
 
